@@ -28,6 +28,8 @@ pub struct ServerProp {
 
 const SYS_MODE: u32 = 7;
 const LONG_MODE: u32 = 6;
+/// C10 only: subscribers and setters of a real `notified::State` (see `c10n.rs`).
+const NOTIFIED_MODE: u32 = 5;
 const PRODUCTION: usize = 100 * 1024 * 1024;
 const C09_LIMIT: usize = 4096;
 
@@ -155,6 +157,10 @@ fn gen_scenario(kind: Kind, w: &mut W) -> Scenario {
     let first = w.tape.draw(8) as u32;
     if first == SYS_MODE {
         return sys_scenario(kind, w);
+    }
+    if first == NOTIFIED_MODE && kind == Kind::C10 {
+        // the rest of the tape is read by `c10n::run`
+        return Scenario { stream_gate: None, yield_first: false, clients: vec![], late: vec![], singles: vec![], suspends: false, mode: "NOTIFIED".into(), real: vec![] };
     }
     if first == LONG_MODE && kind != Kind::C18 && w.tape.draw(64) == 63 && w.tape.draw(8) == 0 {
         w.stat("long_lived_server_runs");
@@ -445,6 +451,9 @@ impl Prop for ServerProp {
     fn run(&self, world: &World, want_sample: bool) -> Verdict {
         let id = self.id();
         let mut sc = gen_scenario(self.kind, &mut world.borrow_mut());
+        if sc.mode == "NOTIFIED" {
+            return crate::props::c10n::run(world);
+        }
         let needs_limit = sc.clients.iter().any(|c| c.faults.iter().any(|f| matches!(f, Fault::Oversize { .. })));
         // The lowered limit must stay far above every legitimate burst in this world: the reader
         // accumulates a pipelined burst before handing out frames (known finding F6 of C17), and
